@@ -27,7 +27,7 @@ META = dict(
           "of {0, 1, 2.5}, every form of the wavelength argument; one calculator per (list, form); non-trivial = "
           "non-zero total weight and non-zero density, so that three value vectors and three shapes are compared"),
     bound=dict(
-        quick="all 110 lists of length 1..2; 4^n weight vectors; 3 densities; wavelength forms default, float, "
+        quick="all 110 lists of length 1..2 and the 280 lists of length 3 in which a material is repeated; 4^n weight vectors; 3 densities; wavelength forms default, float, "
               "int, float beyond the resonance tables, length-1 array, length-4 array, length-4 list, length-4 tuple, "
               "array whose length equals the number of materials",
         thorough="all 1110 lists of length 1..3; 4^n weight vectors; 3 densities; the same nine wavelength forms"),
@@ -119,6 +119,12 @@ def all_lists(maxlen):
     for n in range(1, maxlen + 1):
         out.extend(itertools.product(range(len(MATERIALS)), repeat=n))
     return out
+
+
+def repeated_triples():
+    """All lists of length 3 in which some material occurs more than once ([A,A,B], [A,B,A], [A,B,B],
+    [A,A,A]): the shortest lists in which a repeated material is not adjacent to / not all of the list."""
+    return [t for t in itertools.product(range(len(MATERIALS)), repeat=3) if len(set(t)) < 3]
 
 
 def _snippet(E, mats, weights, density, form):
@@ -308,8 +314,11 @@ def _shard(args):
 
 def run(ctx):
     maxlen = 2 if ctx.quick else 3
-    lists = rotate(all_lists(maxlen), ctx.seed)
-    nshards = 16 if ctx.quick else 96
+    lists = all_lists(maxlen)
+    if ctx.quick:
+        lists = lists + repeated_triples()
+    lists = rotate(lists, ctx.seed)
+    nshards = 32 if ctx.quick else 96
     jobs = [(part, ctx.tier, i) for i, part in enumerate(chunks(lists, nshards))]
     ctx.pmap(_shard, jobs)
     acc = ctx.acc
